@@ -89,6 +89,9 @@ def gen_spec(seed):
             'copy_of_target': False, 'select_twice': rng.random() < 0.3 and not r_only,
             # user-set screens on the share of the mode / of missing values (None: the defaults, 0.999)
             'thresh_mode': rng.choice([None, None, 0.9, 0.6, 0.5]), 'thresh_nan': rng.choice([None, None, None, 0.5, 0.3])}
+    # the caller's feature lists name some columns twice (e.g. two overlapping candidate lists concatenated):
+    # `select` returns distinct features all the same
+    spec['dup_names'] = rng.random() < 0.12
     if not r_only and rng.random() < 0.08:
         spec['colsample'] = 0.5         # features first screened in random halves (n_best // 2 kept per half), then together
     if r_only:
@@ -140,6 +143,9 @@ def make_selector(spec):
     from AutoCarver import selectors as S
     kw = dict(n_best=spec['n_best'], quantitative_features=list(spec['quanti']), qualitative_features=list(spec['quali']),
               thresh_corr=spec['thresh_corr'])
+    if spec.get('dup_names'):
+        for key in ('quantitative_features', 'qualitative_features'):
+            kw[key] = kw[key] + kw[key][:1] + kw[key][-1:]
     if spec.get('colsample'):
         kw['colsample'] = spec['colsample']
     if spec.get('thresh_mode') is not None:
